@@ -18,6 +18,7 @@ pub mod c11;
 pub mod c13;
 pub mod c14;
 pub mod c15;
+pub mod c07;
 pub mod c16;
 pub mod c17;
 pub mod c18;
@@ -42,6 +43,7 @@ pub fn run_property(prop: &str, ctx: &Ctx) -> Option<Report> {
         "C13" => c13::run(ctx),
         "C14" => c14::run(ctx),
         "C15" => c15::run(ctx),
+        "C07" => c07::run(ctx),
         "C16" => c16::run(ctx),
         "C17" => c17::run(ctx),
         "C18" => c18::run(ctx),
